@@ -180,20 +180,36 @@ impl<'a> Iterator for Lexer<'a> {
     type Item = Token<'a>;
 
     fn next(&mut self) -> Option<Token<'a>> {
+        // Invalid characters are skipped in a loop, not by recursion: there
+        // may be arbitrarily many of them in a row.
+        loop {
+            if let Some(token) = self.next_or_skip()? {
+                return Some(token);
+            }
+        }
+    }
+}
+
+impl<'a> Lexer<'a> {
+    /// Lexes the next token.
+    ///
+    /// Returns `None` at the end of the input, and `Some(None)` if an invalid
+    /// character was reported and skipped instead.
+    fn next_or_skip(&mut self) -> Option<Option<Token<'a>>> {
         // Consume whitespace and comments
         let mut comment_start: Option<usize> = None;
         while let Some(c) = self.s[self.l..self.u].chars().next() {
             let should_skip = match c {
                 '\n' => {
                     if let Some(comment_start) = comment_start.take() {
-                        return Some(Token {
+                        return Some(Some(Token {
                             value: TokenValue::Comment,
                             source: Str {
                                 value: self.s,
                                 start: comment_start,
                                 end: self.l,
                             },
-                        });
+                        }));
                     }
                     true
                 }
@@ -370,17 +386,17 @@ impl<'a> Iterator for Lexer<'a> {
                         end: self.l,
                     },
                 });
-                return self.next();
+                return Some(None);
             }
         };
-        Some(Token {
+        Some(Some(Token {
             value,
             source: Str {
                 value: self.s,
                 start,
                 end: self.l,
             },
-        })
+        }))
     }
 }
 
